@@ -19,7 +19,9 @@ enum QKind {
   Q_PUBLISH = 1, Q_TAKE = 2, Q_TOUCH = 3, Q_DROP = 4, Q_RETIRE = 5, Q_QUIESCENT = 6, Q_PAUSE_RESUME = 7, Q_SPAWN = 8,
   Q_END_PAUSED = 9,   // last op: pause and exit paused
   Q_END_EXIT = 10,    // last op: exit at once, requests pending, no drain
-  Q_END_DRAIN = 11    // last op: take part in the drain rounds, then exit
+  Q_END_DRAIN = 11,   // last op: take part in the drain rounds, then exit
+  // counter-width probe (focus 55): one thread stalls holding a reference while another goes through 2^a quiescent states
+  Q_WAIT_FLAG = 12, Q_SET_FLAG = 13, Q_MANY_QUIESCENT = 14
 };
 // Op fields: a = slot (publish/take/retire) or child thread index (spawn)
 
@@ -49,6 +51,7 @@ struct World {
   int lifecycle_inflight = 0;
   const Case* c = nullptr;
   bool drain_checked = false;
+  int flags[4] = {};
 };
 
 World* W = nullptr;
@@ -244,6 +247,23 @@ void thread_body(int tid) {
         W->lifecycle_inflight--;
         break;
       }
+      case Q_WAIT_FLAG: {
+        while (W->flags[o.a & 3] == 0) point(K_SPIN, nullptr);
+        break;
+      }
+      case Q_SET_FLAG: W->flags[o.a & 3] = 1; break;
+      case Q_MANY_QUIESCENT: {
+        // full speed, no scheduling points: nobody else can run meanwhile, which is the point (the other thread stays where
+        // it is, registered and not quiescent); the monitor sees one long quiescent interval of this thread
+        me.qis.push_back({stamp(), INF});
+        {
+          HooksOff off;
+          const uint64_t n = (1ULL << o.a) + 8;
+          for (uint64_t k = 0; k < n; k++) unodb::this_thread().quiescent();
+        }
+        me.qis.back().ret = stamp();
+        break;
+      }
       case Q_END_PAUSED: {
         drop_refs(me);
         me.gone = true;
@@ -286,8 +306,9 @@ void thread_body(int tid) {
 
 struct QsbrEngine final : Engine {
   const char* name() const override { return "qsbrsim"; }
-  uint64_t schedules_per_program() const override { return 32; }
-  bool uses_buggify() const override { return true; }
+  static bool probe_focus() { const char* fe = getenv("SIM_FOCUS"); return fe && atoi(fe) == 55; }
+  uint64_t schedules_per_program() const override { return probe_focus() ? 1 : 32; }
+  bool uses_buggify() const override { return !probe_focus(); }
 
   Case generate(uint64_t seed, const std::string& tier) override {
     Case c;
@@ -297,6 +318,20 @@ struct QsbrEngine final : Engine {
     const char* fe = getenv("SIM_FOCUS");
     const int focus = fe ? atoi(fe) : 5;
     c.set_knob("focus", focus);
+    if (focus == 55) {
+      // reader: quiesce, take a reference, stall (registered, not quiescent) until the writer is done, touch the reference.
+      // writer: wait for the reference to be taken, retire the object, quiesce, go through 2^a further quiescent states.
+      // Any counter of "quiescent states in this epoch" that wraps within 2^a makes the writer look like the last thread of
+      // the epoch a second time and frees the object under the reader.
+      static const int64_t exps[] = {32, 16, 8, 32, 33, 24, 31, 32};
+      const int64_t a = tier == "thorough" ? exps[seed % 8] : (seed % 2 ? 16 : 32);
+      auto op = [](int k, int64_t x) { Op o; o.kind = k; o.a = x; return o; };
+      c.threads.push_back({op(Q_QUIESCENT, 0), op(Q_TAKE, 0), op(Q_SET_FLAG, 0), op(Q_WAIT_FLAG, 1), op(Q_TOUCH, 0), op(Q_DROP, 0), op(Q_END_EXIT, 0)});
+      c.threads.push_back({op(Q_WAIT_FLAG, 0), op(Q_RETIRE, 0), op(Q_QUIESCENT, 0), op(Q_QUIESCENT, 0), op(Q_MANY_QUIESCENT, a), op(Q_SET_FLAG, 1), op(Q_END_EXIT, 0)});
+      c.set_knob("prefilled_slots", 1);
+      c.set_knob("initial_threads", 2);
+      return c;
+    }
     const auto tx = r.below(100);
     const int ninit = tx < 35 ? 2 : (tx < 80 ? 3 : 4);
     const int nchildren = r.chance(0.35) ? 1 : 0;
@@ -348,6 +383,9 @@ struct QsbrEngine final : Engine {
       case Q_END_PAUSED: return "qsbr_pause(); exit";
       case Q_END_EXIT: return "exit (requests pending)";
       case Q_END_DRAIN: return "3 drain rounds (quiescent() each, all registered threads in step); exit";
+      case Q_WAIT_FLAG: return "wait for flag " + std::to_string(o.a);
+      case Q_SET_FLAG: return "set flag " + std::to_string(o.a);
+      case Q_MANY_QUIESCENT: return "2^" + std::to_string(o.a) + " + 8 quiescent states at full speed";
       default: return "?";
     }
   }
